@@ -65,7 +65,9 @@ func genServe(t *rapid.T) ServeCase {
 	nl := rapid.IntRange(1, 3).Draw(t, "nleech")
 	for i := 0; i < nl; i++ {
 		var ops []LOp
-		ops = append(ops, LOp{Op: "interested"})
+		if rapid.IntRange(0, 4).Draw(t, "startInterested") < 3 {
+			ops = append(ops, LOp{Op: "interested"})
+		} // else: the client keeps choking this peer; whatever it requests must not be served (unless allowed-fast)
 		n := rapid.IntRange(1, 14).Draw(t, "nops")
 		for k := 0; k < n; k++ {
 			switch rapid.IntRange(0, 11).Draw(t, "op") {
